@@ -109,6 +109,19 @@ func main() {
 		globals(32767)
 		globals(32768)
 		globals(32769)
+	case "ng":
+		nativeGlobals(1000)
+		nativeGlobals(32768)
+		nativeGlobals(32769)
+	case "funcs":
+		funcs(255)
+		funcs(256)
+		funcs(257)
+		funcs(300)
+		natives(255)
+		natives(256)
+		natives(257)
+		natives(300)
 	case "select":
 		sel(1000, false)
 		sel(65536, false)
